@@ -34,6 +34,8 @@ Definition type_cols (pkg parent : bytes) (f : ofield) (t : otype) : N * bytes *
   | TEnum p n => (14, qualify pkg p n, bs "enum")
   | TExt tn k => (11, tn, k)
   | TMap _ => (11, parent ++ [46] ++ map_name (to_snake (f_json f)), [])
+  | TNested n k => (if k =? 2 then 14 else 11, parent ++ [46] ++ n,
+                    if k =? 0 then bs "object" else if k =? 1 then bs "oneof" else bs "enum")
   end.
 
 Definition field_lines (pkg parent : bytes) (in_oneof : bool) (i : N) (f : ofield) : list line :=
@@ -59,16 +61,30 @@ Fixpoint fields_lines (pkg parent : bytes) (in_oneof : bool) (i : N) (l : list o
   | f :: r => field_lines pkg parent in_oneof i f ++ fields_lines pkg parent in_oneof (N.succ i) r
   end.
 
-(* the map entry messages of a message, in field order: key = 1 (string), value = 2 *)
+(* the messages nested in a message because of its fields, in field order: the entry message of a map
+   field (key = 1 string, value = 2) and the message of an inline object / oneof; then (a separate list
+   in the descriptor) the inline enums *)
 Definition entry_lines (pkg parent : bytes) (file : N) (fs : list ofield) : list line :=
   flat_map (fun f =>
-    match f_type f with
-    | TMap v =>
+    match f_type f, f_inline f with
+    | TMap v, _ =>
         let '(pt, tn, kind) := type_cols pkg parent f v in
         [ (1, [parent ++ [46] ++ map_name (to_snake (f_json f)); []], [file; 0; 0]);
           (2, [bs "key"; []; []; []; []; []; []], [1; 9; 0; 0; 0; 0; 0; 0; 0; 0; 0]);
           (2, [bs "value"; []; tn; kind; []; []; []], [2; pt; 0; 0; 0; 0; 0; 0; 0; 0; 0]) ]
-    | _ => []
+    | TNested n k, Some il =>
+        if k =? 2 then []
+        else (1, [parent ++ [46] ++ n; []], [file; 0; b2n (k =? 1)])
+             :: fields_lines pkg (parent ++ [46] ++ n) (k =? 1) 1 (map of_sfield (il_fields il))
+    | _, _ => []
+    end) fs
+  ++ flat_map (fun f =>
+    match f_type f, f_inline f with
+    | TNested n k, Some il =>
+        if k =? 2 then (4, [parent ++ [46] ++ n], [])
+                       :: map (fun v => (5, [fst v], [snd v])) (status_values (to_screaming_snake n ++ [95]) (il_options il))
+        else []
+    | _, _ => []
     end) fs.
 
 (* 1: message — [full name; psm entity] [file; psm part; is oneof] *)
@@ -157,6 +173,7 @@ Definition c17_check (c : c17case) : bool :=
                  && (negb cok || (list_eqb line_eqb (flat_map (fun e => client_lines (client_view e)) es) clines
                                   && grouping_ok es cs))
       | Err s => negb ok && (err_class s =? errc)
+      | Panic _ => negb ok && (errc =? 100)      (* the real compiler panicked *)
       | _ => false
       end
   end.
